@@ -879,7 +879,23 @@ func (o *Origin) allocContent(al *ssa.Alloc, at ssa.Instruction, _ []string) *Te
 		return &Term{Op: "zero", Name: shortPkg(typ.String())}
 	}
 	if whole != nil && whole.Op != "lit" {
-		// field overwrite on top of an opaque value
+		// field overwrite on top of an opaque value. For a small struct this IS the struct literal with the untouched fields copied
+		// from the old value — the normal form that `T{F: v, G: old.G, …}` has too (copy-and-modify ≡ rebuild field by field).
+		if st, ok := typ.Underlying().(*types.Struct); ok && st.NumFields() <= 12 && whole.Op != "unknown" {
+			lit := &Term{Op: "lit", Name: shortPkg(typ.String())}
+			for i := 0; i < st.NumFields(); i++ {
+				fn := st.Field(i).Name()
+				if strings.HasPrefix(fn, "XXX_") {
+					continue
+				}
+				v, ok := fields[fn]
+				if !ok {
+					v = mkField(whole, fn)
+				}
+				lit.Args = append(lit.Args, &Term{Op: "kv", Name: fn, Args: []*Term{v}})
+			}
+			return lit
+		}
 		t := &Term{Op: "update", Args: []*Term{whole}}
 		sort.Strings(order)
 		for _, k := range order {
@@ -1124,8 +1140,14 @@ func (o *Origin) inlinable(fn *ssa.Function) bool {
 			switch x := in.(type) {
 			case *ssa.Return:
 				rets++
-			case *ssa.Panic, *ssa.Go, *ssa.Defer, *ssa.MapUpdate, *ssa.Send:
+			case *ssa.Go, *ssa.Defer, *ssa.MapUpdate, *ssa.Send:
 				return false
+			case *ssa.Panic:
+				// a panicking branch does not return: the value handed back is the single return's (must-style helpers).
+				// Only unexported helpers: exported Must* functions (compkey.MustEncode …) are anchors the rules name.
+				if n := fn.Name(); n == "" || !(n[0] >= 'a' && n[0] <= 'z') {
+					return false
+				}
 			case *ssa.Call:
 				// only pure helpers are inlined: no interface dispatch, no calls out of the module
 				// other than the pure table (so keeper accessors stay atomic call terms)
@@ -1149,6 +1171,29 @@ func (o *Origin) inlinable(fn *ssa.Function) bool {
 		}
 	}
 	return rets == 1
+}
+
+// callAtomic: the call term itself (callee name, argument terms, site), never inlined or projected.
+func (o *Origin) callAtomic(c *ssa.Call) *Term {
+	cc := &c.Call
+	name := calleeName(cc)
+	var args []*Term
+	if cc.IsInvoke() {
+		args = append(args, o.argAt(cc.Value, c))
+	}
+	for _, a := range cc.Args {
+		args = append(args, o.argAt(a, c))
+	}
+	if b, ok := cc.Value.(*ssa.Builtin); ok {
+		return &Term{Op: "call", Name: "builtin:" + b.Name(), Args: args}
+	}
+	callee := cc.StaticCallee()
+	t := &Term{Op: "call", Name: name, Args: args}
+	genGetter := callee != nil && o.p.IsGenerated(callee) && strings.HasPrefix(callee.Name(), "Get") && len(args) == 1
+	if !pureCallees[name] && !genGetter {
+		t.Site = o.siteOf(c)
+	}
+	return t
 }
 
 func (o *Origin) call(c *ssa.Call) *Term {
